@@ -372,6 +372,10 @@ impl Sim {
         let users: Vec<String> = ALL_USERS[..config.n_users].iter().map(|s| s.to_string()).collect();
         let mut denoms: Vec<String> = BASE_DENOMS.iter().map(|s| s.to_string()).collect();
         denoms.extend((0..config.n_filler_denoms).map(|i| format!("zf{:02}", i)));
+        if config.odd_token_ids {
+            // denominations that differ from the fee denominations only by case / a suffix: never charged a fee
+            denoms.extend(["UJUNOX", "ujunox2", "Uusdcx", "uusdcx.b"].iter().map(|s| s.to_string()));
+        }
 
         let storage = SharedStorage::new();
         let shim = ShimHandles::new();
